@@ -131,6 +131,15 @@ def open_concat(case, parts):
     from katdal.concatdata import ConcatenatedDataSet
     ordered = [parts[i] for i in case['order']]
     if case['fmt'] == 'v4':
+        if case['seed'] % 3 == 0:
+            # the user had narrowed some parts before concatenating them: the combined data set starts from the
+            # whole parts all the same (scan numbering included)
+            for k, p in enumerate(ordered):
+                if k % 2 == 0:
+                    try:
+                        p.dataset.select(scans='track', channels=slice(0, 1))
+                    except Exception:   # noqa: BLE001
+                        pass
         return ConcatenatedDataSet([p.dataset for p in ordered])
     return katdal.open([p.path for p in ordered])
 
